@@ -1,0 +1,9 @@
+//go:build !verif
+
+package exec
+
+func verifTick() {}
+
+func verifEnterCall() func() { return verifLeaveCall }
+
+func verifLeaveCall() {}
